@@ -101,6 +101,10 @@ def generate(rng, tier, idx):
     sc['consumer_on_cut'] = rng.choice([None, None, None, 'wp', 'wpr', 'ep'])
     sc['consumer_after_read'] = rng.random() < 0.5
     sc['control_file'] = rng.random() < 0.4
+    if tier == 'thorough' and (sc['consumer_on_cut'] or w['n_models'] > 100):
+        # every byte offset is enumerated only where one read per offset is all there is to do; with a post-processing
+        # call per offset, or records of a thousand fits, a dense seeded sample plus all boundaries keeps a run bounded
+        sc['offsets'] = {'mode': 'sample', 'n': 1500, 'seed': rng.randrange(1 << 30), 'all_below': 4000}
     return sc
 
 
